@@ -79,7 +79,13 @@ def parse_line(line):
     for line_re, decode_callable in get_decoders():
         match = line_re.match(line)
         if match is not None:
-            return decode_callable(line, match)
+            try:
+                return decode_callable(line, match)
+            except ValueError:
+                # a field the decoder cannot convert (e.g. a size beyond
+                # the int digit limit): skip the line like any other
+                # line that cannot be understood
+                return None
     return None
 
 
@@ -98,7 +104,11 @@ def _parse_time(t, formats):
     day = _t.tm_mday
     hour = _t.tm_hour
     minutes = _t.tm_min
-    dt = datetime(year, month, day, hour, minutes, tzinfo=timezone.utc)
+    try:
+        dt = datetime(year, month, day, hour, minutes, tzinfo=timezone.utc)
+    except ValueError:
+        # e.g. "Feb 29 12:00" when the current year is not a leap year
+        return None
 
     epoch_time = (dt - EPOCH_DT).total_seconds()
     return epoch_time
